@@ -1,0 +1,68 @@
+//go:build verif
+// +build verif
+
+package ast
+
+import "github.com/bytedance/sonic/internal/native/types"
+
+// VerifRepr exposes the hidden representation of a node to the verification harness
+// (build tag verif only; no call sites in the library).
+//
+//	repr:  "raw" | "lazy" | "loaded" | "any" | "scalar" | "none" | "error"
+//	slots: physical child slots parsed or stored so far (soft-deleted ones included)
+//	live:  slots that hold an existing child
+//	l:     the logical length field
+func (self *Node) VerifRepr() (repr string, slots int, live int, l int, hasIndex bool, hasMutex bool) {
+	if self == nil {
+		return "none", 0, 0, 0, false, false
+	}
+	hasMutex = self.m != nil
+	l = int(self.l)
+	t := self.t
+	switch {
+	case t == V_ERROR:
+		return "error", 0, 0, l, false, hasMutex
+	case t == _V_NONE:
+		return "none", 0, 0, l, false, hasMutex
+	case t&_V_RAW != 0:
+		return "raw", 0, 0, l, false, hasMutex
+	case t == _V_ANY:
+		return "any", 0, 0, l, false, hasMutex
+	}
+	countNodes := func(p *linkedNodes) {
+		slots = p.Len()
+		for i := 0; i < slots; i++ {
+			if p.At(i).Exists() {
+				live++
+			}
+		}
+	}
+	countPairs := func(p *linkedPairs) {
+		slots = p.Len()
+		hasIndex = p.index != nil
+		for i := 0; i < slots; i++ {
+			if v := p.At(i); v != nil && v.Value.Exists() {
+				live++
+			}
+		}
+	}
+	switch t {
+	case _V_ARRAY_LAZY:
+		countNodes(&(*parseArrayStack)(self.p).v)
+		return "lazy", slots, live, l, false, hasMutex
+	case _V_OBJECT_LAZY:
+		countPairs(&(*parseObjectStack)(self.p).v)
+		return "lazy", slots, live, l, hasIndex, hasMutex
+	case types.V_ARRAY:
+		if self.p != nil {
+			countNodes((*linkedNodes)(self.p))
+		}
+		return "loaded", slots, live, l, false, hasMutex
+	case types.V_OBJECT:
+		if self.p != nil {
+			countPairs((*linkedPairs)(self.p))
+		}
+		return "loaded", slots, live, l, hasIndex, hasMutex
+	}
+	return "scalar", 0, 0, l, false, hasMutex
+}
